@@ -256,6 +256,8 @@ func (w *world) doStep(op string, p *profile) {
 		w.advance(rapid.SampledFrom([]time.Duration{time.Nanosecond, time.Millisecond, time.Second, 2 * time.Second}).Draw(w.rt, "advance"))
 	case "tick":
 		w.stepTick()
+	case "slowFetch":
+		w.stepExecuteSlowFetch(p.instances)
 	case "raceWake":
 		w.stepExecuteRacingWakeUp(p.instances)
 	case "raceDrain":
